@@ -674,7 +674,7 @@ static std::string handle(const Req& r)
 	if (c == "C_CreateObject" || c == "C_CopyObject" || c == "C_GenerateKey" || c == "C_DeriveKey" || c == "C_UnwrapKey") {
 		Tpl t; Mech m; Blob in;
 		if (!parse_template(r, "tpl", t, err) || !parse_mech(r, "mech", m, err) || !parse_inblob(r, "in", in, err)) return "{\"error\":\"" + err + "\"}";
-		CK_OBJECT_HANDLE* ph = (CK_OBJECT_HANDLE*)galloc(sizeof(CK_OBJECT_HANDLE), 0); *ph = 0;
+		CK_OBJECT_HANDLE* ph = (CK_OBJECT_HANDLE*)galloc(sizeof(CK_OBJECT_HANDLE), 0); *ph = r.U("hinit");      // hinit: what the application's output variable holds before the call (default 0)
 		CK_RV rv;
 		if (c == "C_CreateObject") rv = C_CreateObject(s, t.a, t.n, nullout ? NULL : ph);
 		else if (c == "C_CopyObject") rv = C_CopyObject(s, r.U("o"), t.a, t.n, nullout ? NULL : ph);
@@ -686,7 +686,7 @@ static std::string handle(const Req& r)
 	if (c == "C_GenerateKeyPair") {
 		Tpl t1, t2; Mech m;
 		if (!parse_template(r, "pub", t1, err) || !parse_template(r, "priv", t2, err) || !parse_mech(r, "mech", m, err)) return "{\"error\":\"" + err + "\"}";
-		CK_OBJECT_HANDLE* ph = (CK_OBJECT_HANDLE*)galloc(2 * sizeof(CK_OBJECT_HANDLE), 0); ph[0] = ph[1] = 0;
+		CK_OBJECT_HANDLE* ph = (CK_OBJECT_HANDLE*)galloc(2 * sizeof(CK_OBJECT_HANDLE), 0); ph[0] = ph[1] = r.U("hinit");
 		unsigned long no = r.U("nullout");
 		CK_RV rv = C_GenerateKeyPair(s, m.m, t1.a, t1.n, t2.a, t2.n, (no & 1) ? NULL : &ph[0], (no & 2) ? NULL : &ph[1]);
 		RV(o, rv); ADDU(o, "hpub", ph[0]); ADDU(o, "hpriv", ph[1]); return o + "}";
